@@ -13,8 +13,12 @@ for p in props:
     path = os.path.join(HERE, "tools", "props", pid.lower() + ".py")
     meta = None
     if os.path.exists(path):
-        mod = importlib.import_module("props." + pid.lower())
-        meta = getattr(mod, "META", None)
+        try:
+            mod = importlib.import_module("props." + pid.lower())
+            meta = getattr(mod, "META", None)
+        except Exception as ex:  # module still being written
+            print(f"{pid}: not importable yet ({ex})")
+            meta = None
     if not meta or meta.get("not_applicable"):
         na.append({"property_id": pid, "reason": (meta or {}).get(
             "not_applicable", "check not built yet in this session; see DESIGN.md section 4 for the planned model")})
